@@ -157,6 +157,8 @@ pub struct OpObs {
     /// were all claims shown to the verifier true of the committed polynomials? ("true"/"false"/"unknown")
     pub claims_true: String,
     pub n_proofs: usize,
+    /// C10: decision of the independent reference relation ("accept" | "reject" | "" = not evaluated)
+    pub reference: String,
 }
 
 #[derive(Serialize, Clone, Debug, Default)]
